@@ -585,6 +585,40 @@ func (e *SpecEnv) call(x *ast.CallExpr) Val {
 		return e.iteVal(lt, a, b)
 	case "forall", "exists", "forall_t":
 		return e.quant(name, x)
+	case "forallkey":
+		// forallkey(k, m, body): for every value k of the key type of map m (present in m or not)
+		if len(x.Args) != 3 {
+			return e.fail("forallkey(k, m, body)")
+		}
+		id, ok := x.Args[0].(*ast.Ident)
+		if !ok {
+			return e.fail("quantifier variable must be an identifier")
+		}
+		mv, ok := e.eval(x.Args[1]).(MapV)
+		if !ok {
+			return e.fail("forallkey needs a map")
+		}
+		kt := mv.Typ.Underlying().(*types.Map).Key()
+		ks := st.keySort(kt)
+		bn := st.c.boundName(id.Name)
+		var kv Val
+		switch {
+		case ks == SRef:
+			if _, isPtr := kt.Underlying().(*types.Pointer); !isPtr {
+				return e.fail("forallkey: key type %s not supported", kt)
+			}
+			kv = PtrV{Sym: bn, Typ: kt}
+		case ks == SStr:
+			kv = Scalar{Term{bn, SStr}, kt}
+		default:
+			return e.fail("forallkey: key type %s not supported", kt)
+		}
+		sub := e.with(map[string]Val{id.Name: kv})
+		body := sub.boolTerm(x.Args[2])
+		if sub.err != nil && e.err == nil {
+			e.err = sub.err
+		}
+		return Scalar{mkForall(fmt.Sprintf("(%s %s)", bn, ks), body), boolT}
 	case "forall_slice":
 		// forall_slice(elemtype, m, body): for every slice m of that element type
 		if len(x.Args) != 3 {
